@@ -522,7 +522,8 @@ theorem beamCX_nonneg {E : Ext α} (S : ExtSpec E) (cf wl : α) (ex : Bool) (c :
       | (cases h; exact (clampMul_some_pos ‹_›).le)
 
 
-/-- **the guard BeamCXPEC lacks** (finding C07:BeamCXPEC:nonpositive-…-not-zero): with single-point temperature /
+/-- **why the complete guard is needed** (finding C07:BeamCXPEC:nonpositive-…-not-zero, fixed in 57a68d0): the bare
+interpolation chain does not return zero for a non-positive temperature or density — with single-point temperature /
 density / Z_eff / B axes (`Constant1D`) the rate does not look at those arguments at all — for a non-positive
 temperature or density it is the same *positive* number, not zero. -/
 theorem beamCX_single_point_ignores_arguments {E : Ext α} (S : ExtSpec E) (cf wl : α) (hcf : 0 < cf) (hwl : 0 < wl)
@@ -548,7 +549,7 @@ theorem beamCX_single_point_ignores_arguments {E : Ext α} (S : ExtSpec E) (cf w
   rw [clampMul_pos (mul_pos (mul_pos (mul_pos pj (div_pos p2 hq)) (div_pos p3 hq)) (div_pos p4 hq)) (div_pos p5 hq)]
 
 
-/-- the negation of "zero on a non-positive temperature" on the model of the code as it is -/
+/-- the negation of "zero on a non-positive temperature" for the chain without the leading guard -/
 theorem beamCX_not_zero_on_nonpositive_temperature {E : Ext α} (S : ExtSpec E) (cf wl : α) (hcf : 0 < cf)
     (hwl : 0 < wl) (ex : Bool) (c : CXTable α) (qe qt qn qz qb : α) (hqe : c.qeb = [qe]) (hqt : c.qti = [qt])
     (hqn : c.qni = [qn]) (hqz : c.qz = [qz]) (hqb : c.qb = [qb]) (p1 : 0 < qe) (p2 : 0 < qt) (p3 : 0 < qn)
@@ -646,13 +647,13 @@ theorem beamCX_extrapolated_returns {E : Ext α} (S : ExtSpec E) (cf wl : α) (c
   exact ⟨v, key v hv, hv⟩
 
 
-/-! ### BeamCXPEC behind the complete guard (what the model becomes when the source gains the guard) -/
+/-! ### BeamCXPEC as it is: the complete guard in front of the chain (`beamCXGuarded true`) -/
 
 theorem beamCXGuarded_as_is (E : Ext α) (cf wl : α) (ex : Bool) (c : CXTable α) (en T d z bf : α) :
     beamCXGuarded false E cf wl ex c en T d z bf = beamCX E cf wl ex c en T d z bf := by
   simp [beamCXGuarded]
 
-/-- **zero on a non-positive energy, temperature or density** once the guard is complete -/
+/-- **zero on a non-positive energy, temperature or density** (BeamCXPEC) -/
 theorem beamCXGuarded_zero_on_nonpositive (E : Ext α) (cf wl : α) (ex : Bool) (c : CXTable α) (en T d z bf : α)
     (h : en ≤ 0 ∨ T ≤ 0 ∨ d ≤ 0) : beamCXGuarded true E cf wl ex c en T d z bf = Out.val 0 := by
   unfold beamCXGuarded
@@ -675,6 +676,28 @@ theorem beamCXGuarded_of_pos (g : Bool) (E : Ext α) (cf wl : α) (ex : Bool) (c
   · exact absurd hen (not_lt.mpr h)
   · exact absurd hT (not_lt.mpr h)
   · exact absurd hd (not_lt.mpr h)
+
+/-- **table reproduction** (BeamCXPEC as it is) -/
+theorem beamCXGuarded_at_knot {E : Ext α} (S : ExtSpec E) (g : Bool) (cf wl : α) (hcf : 0 < cf) (hwl : 0 < wl)
+    (ex : Bool) (c : CXTable α) (h : WFC c) (hti : ∀ x ∈ c.ti, 0 < x) (hni : ∀ x ∈ c.ni, 0 < x)
+    (i1 i2 i3 i4 i5 : Nat) (en T d z bf qe qt qn qz qb : α)
+    (h1 : c.eb[i1]? = some en) (h2 : c.ti[i2]? = some T) (h3 : c.ni[i3]? = some d) (h4 : c.z[i4]? = some z)
+    (h5 : c.b[i5]? = some bf) (g1 : c.qeb[i1]? = some qe) (g2 : c.qti[i2]? = some qt) (g3 : c.qni[i3]? = some qn)
+    (g4 : c.qz[i4]? = some qz) (g5 : c.qb[i5]? = some qb) (hle : E.loge en = E.logc en) :
+    beamCXGuarded g E cf wl ex c en T d z bf =
+      Out.val (photonToJ cf (qe * qt * qn * qz * qb / c.qref ^ 4) wl) := by
+  rw [beamCXGuarded_of_pos g E cf wl ex c en T d z bf (h.eb.2 en (List.mem_of_getElem? h1))
+    (hti T (List.mem_of_getElem? h2)) (hni d (List.mem_of_getElem? h3)),
+    beamCX_at_knot S cf wl hcf hwl ex c h i1 i2 i3 i4 i5 en T d z bf qe qt qn qz qb h1 h2 h3 h4 h5 g1 g2 g3 g4 g5 hle,
+    beamCX_documented_product cf wl qe qt qn qz qb c.qref h.qref.ne']
+
+/-- **range policy** (BeamCXPEC as it is): with extrapolation permitted it never raises -/
+theorem beamCXGuarded_extrapolated_returns {E : Ext α} (S : ExtSpec E) (g : Bool) (cf wl : α) (c : CXTable α)
+    (h : WFC c) (en T d z bf : α) : ∃ v, 0 ≤ v ∧ beamCXGuarded g E cf wl true c en T d z bf = Out.val v := by
+  unfold beamCXGuarded
+  split_ifs
+  · exact ⟨0, le_refl _, rfl⟩
+  · exact beamCX_extrapolated_returns S cf wl c h en T d z bf
 
 /-! ## accessor policy: general theorems about `Policy.run` for an *arbitrary* accessor descriptor
 
